@@ -51,6 +51,7 @@ pub fn run(scenario: &'static str) {
 		"vis" => pipe(Mode::Vis),
 		"live" => pipe(Mode::Live),
 		"drop" => pipe(Mode::Drop),
+		"order" => pipe(Mode::Order),
 		"lock" => lock_scenario(),
 		"treelock" => treelock(),
 		_ => pipe(Mode::Vis),
@@ -62,6 +63,9 @@ enum Mode {
 	Vis,
 	Live,
 	Drop,
+	/// Like Live, with the default syncing options and one log file per record: the ordering
+	/// clause of C12 (tables flushed before a log is reclaimed) under thread interleavings.
+	Order,
 }
 
 const VALUE_LENS: [usize; 8] = [9, 20, 30, 33, 60, 200, 1000, 5000];
@@ -121,7 +125,7 @@ fn pipe(mode: Mode) {
 	let dir = fresh_dir();
 	let mut rng = shuttle::rand::thread_rng();
 	let col_kind: u8 = rng.gen_range(0..3); // 0 hash, 1 btree, 2 uniform zero-salt
-	let always_flush = rng.gen_bool(0.7);
+	let always_flush = mode == Mode::Order || rng.gen_bool(0.7);
 	let nkeys: u8 = rng.gen_range(2..6);
 	let ntx: u32 = match mode {
 		Mode::Vis => rng.gen_range(2..9),
@@ -129,7 +133,7 @@ fn pipe(mode: Mode) {
 	};
 	let nreaders: usize = match mode {
 		Mode::Vis => rng.gen_range(1..4),
-		Mode::Live => rng.gen_range(0..2),
+		Mode::Live | Mode::Order => rng.gen_range(0..2),
 		Mode::Drop => 0,
 	};
 	// index growth under concurrent reads: one transaction also writes 66 filler keys of the same
@@ -139,7 +143,9 @@ fn pipe(mode: Mode) {
 	const FILL0: u8 = 100;
 	const NFILL: u8 = 66;
 	let reads_per: usize = if growth { rng.gen_range(20..90) } else { rng.gen_range(2..12) };
-	let sync = rng.gen_bool(0.5);
+	let sync = mode == Mode::Order || rng.gen_bool(0.5);
+	// the ordering monitor listens in every mode that syncs its tables
+	crate::order::arm(sync);
 	// stalled-thread fault: one thread (a worker, the committer or a reader) is descheduled for a
 	// long time at one of its lock acquisitions
 	loom::stall::clear();
@@ -305,6 +311,8 @@ fn pipe(mode: Mode) {
 		}));
 	}
 	if throttle_then_fail {
+		// shutdown in error state reclaims logs without flushing tables: outside C12
+		crate::order::disarm();
 		for _ in 0..rng.gen_range(0..60) {
 			thread::yield_now();
 		}
@@ -397,6 +405,9 @@ fn pipe(mode: Mode) {
 		}
 	}
 	drop(db);
+	if crate::order::disarm() > 0 {
+		probe("log_reclaimed_after_flush_checked");
+	}
 	// record the history (for distinctness and samples)
 	let h = hist.lock().unwrap();
 	let mut hh = fnv(0, &[col_kind, always_flush as u8, nkeys]);
